@@ -211,6 +211,20 @@ c01_read_name!(c01_read_name_4, 4, 7);
 // @lift name
 c01_read_name!(c01_read_name_5, 5, 8);
 
+// @harness c01_read_name_6
+// @property C01 C15
+// @tier thorough
+// @functions DnsIncoming::read_name
+// @bound buffer of exactly 6 symbolic bytes (2^48 contents), start offset symbolic in 0..=6
+// @unwind 9 (ghost budget N+1 = 7 fires first)
+// @termination read_name
+// @oracle Result, never panic; on Ok: start < cursor <= N and name.len() <= 2N
+// @outside buffers longer than 6 bytes in this harness
+// @stubs fmt_format, utf8_model(+tick), u16_from_be_slice(+tick)
+// @covers ok_root, ok_pointer_followed, ok_longest_plain, err
+// @lift name
+c01_read_name!(c01_read_name_6, 6, 9);
+
 // @harness c01_read_name_8
 // @property C01 C15
 // @tier thorough
